@@ -40,9 +40,16 @@ def run(tier):
     mc = tlc.run_tlc("MC_Stream", cfg=f"MC_Stream_{tier}", workers=8, coverage=False, heap="8g", timeout=3400)
     tlc.require_ok(mc, "MC_Stream")
     hists = [v["h"] for t, v in mc.printed if t == "REPLAY"]
+    cex = [v for t, v in mc.printed if t == "CEX"]
     cov, covstats = stream.cover_histories(pairs=(tier == "thorough"))
     hists += cov
-    cex = [v for t, v in mc.printed if t == "CEX"]
+    # combined (merge) diffs with conflict regions: design level + transition cover of their own model
+    mcc = tlc.run_tlc("MC_Stream", cfg="MC_Stream_cc", workers=8, coverage=False, heap="8g", timeout=3400)
+    tlc.require_ok(mcc, "MC_Stream_cc")
+    if mcc.violated:
+        cex += [v for t, v in mcc.printed if t == "CEX"][:3]
+    covcc, covccstats = stream.cover_histories(pairs=(tier == "thorough"), cfg="Cover_Stream_cc")
+    hists += covcc
     log(f"[{PID}] design level: {mc.generated} states, {mc.distinct} distinct, depth {mc.depth}, "
         f"{len(hists)} histories to replay, violated={mc.violated}")
     # non-vacuity of the design-level check: the model of the tree without the D1 fix must be rejected
@@ -52,7 +59,7 @@ def run(tier):
     if cex:
         hists = [c["h"] for c in cex] + hists  # counterexample-guided replay
     # 2. replay into the real binary
-    hunk_hists = [h for h in hists if any(l["c"] in ("minus", "plus", "zero") for l in h)]
+    hunk_hists = [h for h in hists if any(l["c"] in ("minus", "plus", "zero", "cin") for l in h)]
     sample = hunk_hists if tier == "thorough" else rnd.sample(hunk_hists, min(len(hunk_hists), 3000))
     plans = [
         stream.Plan("rs", hunk_hists),
@@ -89,7 +96,8 @@ def run(tier):
         "evaluations": n, "distinct_nontrivial": nontrivial,
         "rule": "every Env_Git history up to ReplayLen lines containing a hunk line (TLC enumeration), x configurations; "
                 f"plus every payload string of bounded length over {ALPHABET!r} for each line kind; distinct = distinct (history, configuration)",
-        "payload_strings": nstr, "transition_cover": covstats,
+        "payload_strings": nstr, "transition_cover": covstats, "transition_cover_combined": covccstats,
+        "states_combined_model": mcc.distinct,
         "configs": sorted({x[0].name for x in res}),
         "drift": len(V.drift), "known_findings_hit": len(V.known_hit),
         "design_counterexamples": len(cex),
